@@ -527,6 +527,10 @@ where
     #[cfg_attr(feature = "tracing", tracing::instrument(name = "Connection::event_loop", skip(self), fields(container_id = %self.connection.local_open().container_id)))]
     async fn event_loop(mut self, tx: oneshot::Sender<Result<(), Error>>) {
         let mut outcome = Ok(());
+        // A closed and drained channel is ready with `None` on every poll; it is taken out of
+        // the `select!` once that is seen so that the loop waits for the other sources
+        // instead of spinning.
+        let mut outgoing_session_frames_closed = false;
         loop {
             let result = tokio::select! {
                 _ = self.heartbeat.next() => self.on_heartbeat().await,
@@ -607,13 +611,14 @@ where
                         }
                     }
                 },
-                frame = self.outgoing_session_frames.recv() => {
+                frame = self.outgoing_session_frames.recv(), if !outgoing_session_frames_closed => {
                     match frame {
                         Some(frame) => self.on_outgoing_session_frames(frame).await,
                         None => {
                             // Upon closing, the outgoing_session_frames channel will be closed
                             // first while the connection may still be waiting for remote
                             // close frame.
+                            outgoing_session_frames_closed = true;
                             Ok(Running::Continue)
                         }
                     }
